@@ -69,7 +69,8 @@ func svSharded(t *testing.T, testName string, n int, dead func(idx int, wedged b
 				// a wedge is tried again, alone (a loaded machine can make the real-time watchdog misfire); a process
 				// death is taken as it is
 				rc2, out2, b := rc, out, []byte(nil)
-				if rc == 3 {
+				if rc == 3 && deadN == 0 {
+					// (only the first wedge of a shard: a change that wedges many scenarios must not cost a retry each)
 					solo.Lock()
 					retry := outs[i] + ".retry"
 					os.Remove(retry)
@@ -99,7 +100,7 @@ func svSharded(t *testing.T, testName string, n int, dead func(idx int, wedged b
 				f.Close()
 				from = idx + 1
 				if rc2 != 0 {
-					if deadN++; deadN >= 20 {
+					if deadN++; deadN >= 3 {
 						// enough failing cases from this shard: its remaining scenarios are not run
 						return
 					}
